@@ -22,42 +22,75 @@ attribute [local irreducible] Goml.GoCompile.vn Goml.GoCompile.gid Goml.GoCompil
 
 theorem scalarEq_eq : ∀ {a b : Ty}, scalarEq a b = true → a = b := by
   intro a b h
-  cases a <;> cases b <;> simp [scalarEq] at h <;> first | rfl | (obtain ⟨h1, h2⟩ := h; subst h1; subst h2; rfl)
+  cases a <;> cases b <;> simp [scalarEq] at h <;> first | rfl | (obtain ⟨h1, h2⟩ := h; subst h1; subst h2; rfl) | (subst h; rfl)
 
-theorem scalarEq_scalar {a b : Ty} (h : scalarEq a b = true) : scalarTy a = true := by
+theorem scalarEq_flat {a b : Ty} (h : scalarEq a b = true) : flatTy a = true := by
   cases a <;> cases b <;> simp [scalarEq] at h <;> rfl
 
-theorem scalarEq_refl {a : Ty} (h : scalarTy a = true) : scalarEq a a = true := by
-  cases a <;> simp [scalarTy] at h <;> simp [scalarEq]
+theorem scalarEq_refl {a : Ty} (h : flatTy a = true) : scalarEq a a = true := by
+  cases a <;> simp [flatTy, scalarTy] at h <;> simp [scalarEq]
 
-/-- a value of a scalar type -/
-def HasTy : Val → Ty → Prop
+mutual
+/-- the Go value of a goml value: scalars as they are (`C01.toG`), a struct value as the Go struct
+    of its (escaped) name with its declared (escaped) field names -/
+def toGV (env : Env) : Val → Option GVal
+  | .unit => some .unit
+  | .bool b => some (.bool b)
+  | .int n s v => some (.int n s v)
+  | .str s => some (.str s)
+  | .structV n vs =>
+    match env.getStruct n, toGVs env vs with
+    | some d, some gs => some (.struct (gid n) ((d.fields.map fun f => gid f.1).zip gs))
+    | _, _ => none
+  | _ => none
+def toGVs (env : Env) : List Val → Option (List GVal)
+  | [] => some []
+  | v :: vs =>
+    match toGV env v, toGVs env vs with
+    | some g, some gs => some (g :: gs)
+    | _, _ => none
+end
+
+mutual
+/-- a value of a fragment type: scalars, and values of admitted struct types field by field -/
+def HasTy (env : Env) : Val → Ty → Prop
   | .unit, .unit => True
   | .bool _, .bool => True
   | .int b s _, .int b' s' => b = b' ∧ s = s'
   | .str _, .string => True
+  | .structV n vs, .struct n' =>
+    n = n' ∧ n ∈ goodStructs env ∧
+      (match env.getStruct n with
+       | some d => HasTys env vs (d.fields.map (·.2))
+       | none => False)
   | _, _ => False
+def HasTys (env : Env) : List Val → List Ty → Prop
+  | [], [] => True
+  | v :: vs, t :: ts => HasTy env v t ∧ HasTys env vs ts
+  | _, _ => False
+end
 
-theorem hasTy_bool {v : Val} (h : HasTy v .bool) : ∃ b, v = .bool b := by
+theorem hasTy_bool {env : Env} {v : Val} (h : HasTy env v .bool) : ∃ b, v = .bool b := by
   cases v <;> simp [HasTy] at h; exact ⟨_, rfl⟩
-theorem hasTy_unit {v : Val} (h : HasTy v .unit) : v = .unit := by
+theorem hasTy_unit {env : Env} {v : Val} (h : HasTy env v .unit) : v = .unit := by
   cases v <;> simp [HasTy] at h; rfl
-theorem hasTy_str {v : Val} (h : HasTy v .string) : ∃ s, v = .str s := by
+theorem hasTy_str {env : Env} {v : Val} (h : HasTy env v .string) : ∃ s, v = .str s := by
   cases v <;> simp [HasTy] at h; exact ⟨_, rfl⟩
-theorem hasTy_int {v : Val} {b s} (h : HasTy v (.int b s)) : ∃ x, v = .int b s x := by
+theorem hasTy_int {env : Env} {v : Val} {b s} (h : HasTy env v (.int b s)) : ∃ x, v = .int b s x := by
   cases v <;> simp [HasTy] at h; obtain ⟨h1, h2⟩ := h; subst h1; subst h2; exact ⟨_, rfl⟩
 
-theorem hasTy_toG {v : Val} {t : Ty} (h : HasTy v t) : ∃ gv, toG v = some gv := by
-  cases v <;> cases t <;> simp [HasTy] at h <;> exact ⟨_, rfl⟩
+/-- on values of scalar type the conversion is `C01.toG` -/
+theorem toGV_scalar {env : Env} {v : Val} {t : Ty} (h : HasTy env v t) (hs : scalarTy t = true) : toGV env v = toG v := by
+  cases v <;> cases t <;> simp [HasTy, scalarTy] at h hs <;> simp [toGV, toG]
 
 /-- worlds: what a run shows (`Sem.Outcome` compares `out` and `externs`) -/
 def WRel (w : World) (gw : GWorld) : Prop := gw.out = w.out ∧ gw.externs = w.externs
 
 /-! ### environments -/
 
-def EnvRel (Γ : Ctx) (ρ : Sem.Env) (gρ : GEnv) : Prop :=
+def EnvRel (env : Env) (Γ : Ctx) (ρ : Sem.Env) (gρ : GEnv) : Prop :=
   (∀ x t, lookupTy Γ x = some t →
-    ∃ v gv, Sem.lookupEnv ρ x = some v ∧ lookupG gρ (vn x) = some gv ∧ toG v = some gv ∧ HasTy v t) ∧
+    ∃ v gv, Sem.lookupEnv ρ x = some v ∧ lookupG gρ (vn x) = some gv ∧ toGV env v = some gv ∧ HasTy env v t) ∧
   (∀ x, lookupTy Γ x = none → Sem.lookupEnv ρ x = none)
 
 theorem lookupTy_cons_self (Γ : Ctx) (x : String) (t : Ty) : lookupTy ((x, t) :: Γ) x = some t := by
@@ -76,9 +109,9 @@ theorem lookupEnv_cons_ne (ρ : Sem.Env) {x y : String} (v : Val) (h : x ≠ y) 
   simp [Sem.lookupEnv, List.find?_cons, this]
 
 /-- a `let`: both environments grow by the same binding; the Go name is new -/
-theorem EnvRel.cons {Γ ρ gρ} (h : EnvRel Γ ρ gρ) {x : String} {t : Ty} {v : Val} {gv : GVal}
-    (hfresh : ¬ vn x ∈ keys gρ) (hg : toG v = some gv) (ht : HasTy v t) :
-    EnvRel ((x, t) :: Γ) ((x, v) :: ρ) ((vn x, gv) :: gρ) := by
+theorem EnvRel.cons {env : Env} {Γ ρ gρ} (h : EnvRel env Γ ρ gρ) {x : String} {t : Ty} {v : Val} {gv : GVal}
+    (hfresh : ¬ vn x ∈ keys gρ) (hg : toGV env v = some gv) (ht : HasTy env v t) :
+    EnvRel env ((x, t) :: Γ) ((x, v) :: ρ) ((vn x, gv) :: gρ) := by
   refine ⟨fun y ty hy => ?_, fun y hy => ?_⟩
   · by_cases hxy : x = y
     · subst hxy
@@ -94,8 +127,8 @@ theorem EnvRel.cons {Γ ρ gρ} (h : EnvRel Γ ρ gρ) {x : String} {t : Ty} {v 
       rw [lookupEnv_cons_ne _ _ hxy]; exact h.2 y hy
 
 /-- the Go environment may change where no variable in scope lives -/
-theorem EnvRel.go_agree {Γ ρ gρ gρ'} (h : EnvRel Γ ρ gρ)
-    (hag : ∀ x t, lookupTy Γ x = some t → lookupG gρ' (vn x) = lookupG gρ (vn x)) : EnvRel Γ ρ gρ' := by
+theorem EnvRel.go_agree {env : Env} {Γ ρ gρ gρ'} (h : EnvRel env Γ ρ gρ)
+    (hag : ∀ x t, lookupTy Γ x = some t → lookupG gρ' (vn x) = lookupG gρ (vn x)) : EnvRel env Γ ρ gρ' := by
   refine ⟨fun y ty hy => ?_, h.2⟩
   obtain ⟨v', gv', h1, h2, h3, h4⟩ := h.1 y ty hy
   exact ⟨v', gv', h1, by rw [hag y ty hy]; exact h2, h3, h4⟩
@@ -204,8 +237,8 @@ theorem GInv.of_decls {Bad S S' gρ} (h : GInv Bad S gρ) (hs : (allDecls S').Su
 
 theorem vn_def (x : String) : vn x = gid (rn x) := by unfold vn; rfl
 
-theorem scalar_not_absurd {t : Ty} (h : scalarTy t = true) : absurdTy (goTy t) = false := by
-  cases t <;> simp [scalarTy] at h <;> simp [goTy, absurdTy]
+theorem flat_not_absurd {t : Ty} (h : flatTy t = true) : absurdTy (goTy t) = false := by
+  cases t <;> simp [flatTy, scalarTy] at h <;> simp [goTy, absurdTy]
 
 theorem allDecls_ite (c : GExpr) (t e : List GStmt) : allDecls [GStmt.ite c t (some e)] = allDecls t ++ allDecls e := by
   simp [allDecls, Goml.Dce.declsOf]
